@@ -435,6 +435,18 @@ def run(ctx):
     kinds = ["sched", "sched", "sched", "releasable", "notify", "notify", "ready", "resolve", "topo", "dfs", "flags"]
     triples = [rand_case(rng, kinds) for _ in range(n)]
     triples += [sane_case(rng) for _ in range(n // 4)]
+    # every switch combination x several lookaheads x policies on the same graph
+    for _ in range(4 if quick else 120):
+        a, t, _op = rand_case(rng, ["flags"])
+        time = rng.choice([3, 8])
+        draws = [rng.randrange(2) for _ in range(12)]
+        for pre in (False, True):
+            for ret in (False, True):
+                for rtg in (False, True):
+                    for la in (0, 4, 40):
+                        for pol in (4, 0, 3):
+                            triples.append((a, t, ["sched", {"time": time, "lookahead": la, "preemption": pre, "retract": ret,
+                                                             "placed": None, "policy": pol, "release_tg": rtg}, draws]))
     # recorded witnesses of the refuted unrestricted forms: the model's answer must be the real code's answer
     import json
     import os
